@@ -86,7 +86,9 @@ def harness(tier, seed):
         for ea, cls in ((True, TSPEA1p1revn), (False, TSPFEA1p1revn)):
             if not ea and inst.tour_length_upper_bound > 10 ** 6:
                 continue    # the FEA allocates a table of upper_bound + 1 counters
-            p = MonitorProcess(inst, rng.randint(0, 2 ** 31), fes, ea)
+            # every third small instance gets a long run (whatever the algorithm does in batches or only after many steps)
+            budget = fes * 8 if (r % 3 == 0 and r < runs) else fes
+            p = MonitorProcess(inst, rng.randint(0, 2 ** 31), budget, ea)
             try:
                 cls(inst).solve(p)
             except Exception as ex:   # with NUMBA_BOUNDSCHECK=1 an out-of-range access raises IndexError
@@ -99,6 +101,6 @@ def harness(tier, seed):
             if len(samples) < 3:
                 samples.append({"algo": cls.__name__, "n": n, "pairs_registered": p.pairs, "last_y": p.last})
     return {"name": "tsp_solve_monitor", "evaluations": evals, "distinct_nontrivial": distinct,
-            "rule": "random symmetric matrices n in 4..9 and n in 127..257 (storage-type boundaries), both solve() methods, every register(x, y) call checked "
+            "rule": "random symmetric matrices n in 4..9 and n in 127..257 (storage-type boundaries), both solve() methods, budgets of 400 and (every third small instance) 3200 FEs in quick, every register(x, y) call checked "
                     "(permutation, exact length, EA monotone, y within [0, upper bound]); distinct = distinct tours registered",
             "samples": samples, "violations": viol, "exhaustive": False}
